@@ -16,7 +16,7 @@ KEY_KEYS = [
     "sub_indicators",
 ]
 
-IGNORE_CLEAN = ["clean_values", "indicators", "sub_indicators"]
+IGNORE_CLEAN = ["clean_values", "indicators", "sub_indicators", "timestamp"]
 
 
 class Candle:
@@ -155,7 +155,7 @@ class Candle:
         self.clean_values = {
             name: value
             for name, value in vars(self).items()
-            if not name.startswith("_") or name in IGNORE_CLEAN
+            if not name.startswith("_") and name not in IGNORE_CLEAN
         }
 
     def recover_clean_values(self):
